@@ -72,6 +72,10 @@ def cases(tier, seed):
     for n in range(1, 4 if tier == "quick" else 5):
         out.append({"id": f"segargmax-n{n}-trail[2]", "kind": "segargmax", "n": n, "trail": [2]})
     out.append({"id": "segargmax-n2-trail[2, 2]", "kind": "segargmax", "n": 2, "trail": [2, 2]})
+    # float data incl. -inf (segments whose rows are all -inf must still return one of their own rows)
+    for n in range(1, 5):
+        out.append({"id": f"segargmax-float-n{n}-trail[]", "kind": "segargmax", "n": n, "trail": [], "alpha": "float"})
+    out.append({"id": "segargmax-float-n3-trail[2]", "kind": "segargmax", "n": 3, "trail": [2], "alpha": "float"})
     for layout in _reducer_layouts():
         out.append({"id": "reducer-" + "".join(f"{k}{v}" for k, v in layout.items()), "kind": "reducer", "layout": layout, "seed": seed})
     for e in range(len(EXPRS)):
@@ -196,7 +200,10 @@ def _run_segargmax(case):
 
     n = case["n"]
     trail = tuple(case["trail"])
-    A = _all_arrays((n, *trail), [0, 1, 2]).astype(np.int64)
+    if case.get("alpha") == "float":
+        A = _all_arrays((n, *trail), [-np.inf, 0.0, 1.5]).astype(np.float64)
+    else:
+        A = _all_arrays((n, *trail), [0, 1, 2]).astype(np.int64)
     viols = []
     cnt = 0
     dig = []
